@@ -78,7 +78,7 @@ func verifC04Frame(payload int, crc bpv7.CRCType) []byte {
 }
 
 func verifC04Gen(r *verifC04Rng, thorough bool) (cases []verifC04Case) {
-	nRand := 200
+	nRand := 100
 	if thorough {
 		nRand = 4000
 	}
